@@ -567,6 +567,13 @@ def _to_c_expr(
                     f"__redu_pow(__redu_operands<{cast}>{{static_cast<{cast}>({emit(n.left)}), "
                     f"static_cast<{cast}>({emit(n.right)})}})"
                 )
+            if (
+                isinstance(n.op, ast.Add)
+                and isinstance(n.left, ast.Constant)
+                and isinstance(n.left.value, str)
+            ):
+                # "a" + x: two C string literals (or a literal and a number) cannot be added
+                return f"(String({emit(n.left)}) + {emit(n.right)})"
             return f"({emit(n.left)} {_BIN[type(n.op)]} {emit(n.right)})"
 
         if isinstance(n, ast.UnaryOp) and type(n.op) in _UN:
